@@ -48,7 +48,7 @@ def run(ctx):
         for k, v in rep["classes"].items():
             total["classes"][k] = total["classes"].get(k, 0) + v
     for need in ("sym:ok_cached", "sym:dropped", "sym:notfound", "sym:hit", "sym:ok_uncached", "file:ok_cached", "file:dropped", "hostile:ok",
-                 "sym-via-locate_file:ok_cached", "sym-via-locate_file:notfound", "symfile:bad1:cut2:err"):
+                 "sym-via-locate_file:ok_cached", "sym-via-locate_file:notfound", "symfile:bad0:cut2:ok"):
         if total["classes"].get(need, 0) == 0:
             raise core.ToolFailure("vacuous: no replayed scenario of class %s" % need)
     cov = {
